@@ -81,12 +81,105 @@ def ob_b1(ctx: Ctx):
 ob_b1.wants_all_cores = True
 
 
+def probe_blank_lines():
+    """documents with blank lines that carry spaces (widths unrelated to the indent) must canonicalise like the same
+    documents without them; trailing spaces and width changes of real indentation must not matter either"""
+    from octave_mcp.core.emitter import emit
+    from octave_mcp.core.parser import parse_with_warnings
+
+    base = "===D===\nMETA:\n  TYPE::T\nB:\n  K::1\n  C:\n    X::2\n  L::3\nT::4\n===END===\n"
+    want = emit(parse_with_warnings(base)[0])
+    bad = []
+    lines = base.split("\n")
+    for w in (1, 2, 3, 4, 5, 7):
+        for at in range(1, len(lines) - 1):
+            t = "\n".join(lines[:at] + [" " * w] + lines[at:])
+            try:
+                got = emit(parse_with_warnings(t)[0])
+            except Exception as e:  # noqa: BLE001
+                got = f"{type(e).__name__}: {e}"
+            if got != want:
+                bad.append(f"a line of {w} spaces before line {at + 1}: canonical text becomes {got!r}")
+    return bool(bad), "; ".join(bad[:2]) or "probe: spaces-only lines of any width are ignored"
+
+
+def ob_indent_guard(ctx: Ctx) -> Outcome:
+    """C03.F2: in tokenize's space branch the INDENT token is appended exactly when
+    space_count > 0 ∧ pos < len(content) ∧ content[pos] != '\\n' (a spaces-only line, or spaces at the end of the input,
+    produce no INDENT), under `column == 1`. The guard is read from the AST and compared with the specification as a
+    propositional formula over those three atoms (z3), so any equivalent spelling is accepted."""
+    import ast
+
+    import z3
+
+    from verif.common import shape_verdict
+
+    try:
+        fn = extract.find_def("octave_mcp.core.lexer", "tokenize")
+    except extract.ExtractionError as e:
+        return Outcome.undecided("ast-shape", str(e))
+    guards = []
+    parents = {}
+    for p_ in ast.walk(fn):
+        for c in ast.iter_child_nodes(p_):
+            parents[id(c)] = p_
+    for n in ast.walk(fn):
+        if isinstance(n, ast.Call) and ast.unparse(n.func) == "tokens.append" and n.args and ast.unparse(n.args[0]).startswith("Token(TokenType.INDENT"):
+            # enclosing ifs up to the space branch
+            chain = []
+            node = n
+            while id(node) in parents:
+                par = parents[id(node)]
+                if isinstance(par, ast.If):
+                    in_body = any(node is x or node in list(ast.walk(x)) for x in par.body)
+                    chain.append((par.test, in_body))
+                    if ast.unparse(par.test) == "content[pos] == ' '":
+                        break
+                node = par
+            guards.append(chain)
+    probe_replay = {"runner": "props.C03:probe_blank_lines", "args": {}}
+    if len(guards) != 1:
+        return shape_verdict("ast-shape", [f"{len(guards)} sites append an INDENT token (expected one, in the space branch)"], probe_blank_lines, 3, probe_replay)
+    a, b, c, col1 = z3.Bools("space_count_pos in_bounds not_newline column_is_1")
+    atoms = {"space_count > 0": a, "space_count >= 1": a, "space_count": a, "space_count != 0": a, "space_count == 0": z3.Not(a), "pos < len(content)": b, "len(content) > pos": b, "pos >= len(content)": z3.Not(b), "pos == len(content)": z3.Not(b), "content[pos] != '\\n'": c, "content[pos] == '\\n'": z3.Not(c), "column == 1": col1, "column != 1": z3.Not(col1), "content[pos] == ' '": z3.BoolVal(True)}
+
+    def conv(e):
+        t = ast.unparse(e)
+        if t in atoms:
+            return atoms[t]
+        if isinstance(e, ast.BoolOp):
+            xs = [conv(v) for v in e.values]
+            return z3.And(*xs) if isinstance(e.op, ast.And) else z3.Or(*xs)
+        if isinstance(e, ast.UnaryOp) and isinstance(e.op, ast.Not):
+            return z3.Not(conv(e.operand))
+        raise KeyError(t)
+
+    try:
+        formula = z3.And(*[conv(t) if pos else z3.Not(conv(t)) for t, pos in guards[0]])
+    except KeyError as e:
+        return shape_verdict("ast-shape", [f"the INDENT guard uses a test this contract has no atom for: {e}"], probe_blank_lines, 3, probe_replay)
+    spec = z3.And(col1, a, b, c)
+    sv = z3.Solver()
+    # short-circuit order: content[pos] is only evaluated when pos < len(content); as propositions, ¬in_bounds makes not_newline irrelevant
+    sv.add(z3.Implies(z3.Not(b), c))
+    sv.add(formula != spec)
+    if sv.check() == z3.unsat:
+        return Outcome.ok("z3+ast", count=3, guard=[(ast.unparse(t), pos) for t, pos in guards[0]])
+    m = sv.model()
+    failed, text = probe_blank_lines()
+    w = Witness(what=f"INDENT is emitted under {[(ast.unparse(t), pos) for t, pos in guards[0]]}, which differs from `column == 1 ∧ space_count > 0 ∧ pos < len(content) ∧ content[pos] != '\\n'` when {m}; {text}", key="indent-guard", input=str(m), replay=probe_replay, confirmed=failed, verifier_output=str(m))
+    if not failed:
+        return Outcome.undecided("z3+ast", w.what[:300])
+    return Outcome.refuted("z3+ast", [w], count=3)
+
+
 def obligations(ctx: Ctx):
     P = PROPERTY
     return [
         Ob(f"{P}.F1.reads", "F", "the emitter reads no source position", EMIT, framesobs.ob_reads_no_position(EMIT)),
         Ob(f"{P}.F1.effects", "F", "the emitter has no ambient effect", EMIT, framesobs.ob_no_effects(EMIT, ("global_write", "env", "cwd", "clock", "random", "locale", "hash_order", "identity", "fs_read", "fs_write", "subprocess", "await"))),
         Ob(f"{P}.R0", "R", "tokenize control skeleton matches the step model", LX.FUNCS_LEX, LX.ob_skeleton),
+        Ob(f"{P}.F2", "F", "INDENT is emitted exactly for spaces at the start of a line that are followed by something other than the line end", ["octave_mcp.core.lexer:tokenize"], ob_indent_guard),
         Ob(f"{P}.R1", "R", "every ASCII alias normalises to the Unicode operator of the same kind", ["octave_mcp.core.lexer:tokenize"], ob_alias_table),
         Ob(f"{P}.R2", "R", "bare emission contains no ASCII operator alias", LX.FUNCS_EMIT, ob_bare_no_ascii_ops),
         Ob(f"{P}.R3.ident", "R", "bare identifier-class strings re-lex to one IDENTIFIER token (no `vs`/literal token inside)", LX.FUNCS_EMIT + LX.FUNCS_LEX, partial(LX.ob_ident, oid=f"{P}.R3", which="ident")),
